@@ -141,7 +141,7 @@ static const char *FNAME[F_N] = {"duplicate board id", "duplicate board unique-i
 	"duplicate reverser CV on a board", "DCC address shared by a train and an accessory", "DCC address shared by two accessories", "DCC address shared by two trains", "duplicate aspect id", "duplicate aspect value",
 	"initial value names no declared aspect", "accessory without aspects", "calibration with 8 values", "calibration with 10 values", "calibration value 127", "speed steps not 14/28/126", "function bit 32",
 	"duplicated function bit", "track-file board missing from the board file", "duplicate feature number on a board", "DCC point id equal to a board point id"};
-#define POS 4
+#define POS 8
 /* returns 1 if the fault could be applied at position pos */
 static int apply_fault(cm_model_t *m, int f, int pos) {
 	cm_std(m);
@@ -167,7 +167,13 @@ static int apply_fault(cm_model_t *m, int f, int pos) {
 		if (pos == 1) { B0->npd = 2; B0->pd[1] = B0->pd[0]; snprintf(B0->pd[1].id, 24, "pointd2"); return 1; } return 0;
 	case F_DCC_TRAIN_TRAIN: if (pos == 0) { m->t[1].addrl = m->t[0].addrl; m->t[1].addrh = m->t[0].addrh; return 1; } return 0;
 	case F_DUP_ASPECT_ID: if (pos == 0) { snprintf(B1->pb[0].aspects[1].id, 24, "normal"); snprintf(B1->pb[0].initial, 24, "normal"); return 1; } if (pos == 1) { snprintf(B0->pd[0].aspects[1].id, 24, "normal"); return 1; }
-		if (pos == 2) { snprintf(B2->per[0].aspects[1].id, 24, "off"); snprintf(B2->per[0].initial, 24, "off"); return 1; } if (pos == 3) { snprintf(B2->sb[0].aspects[1].id, 24, "green"); snprintf(B2->sb[0].initial, 24, "green"); return 1; } return 0;
+		if (pos == 2) { snprintf(B2->per[0].aspects[1].id, 24, "off"); snprintf(B2->per[0].initial, 24, "off"); return 1; } if (pos == 3) { snprintf(B2->sb[0].aspects[1].id, 24, "green"); snprintf(B2->sb[0].initial, 24, "green"); return 1; }
+		/* same id, port lists of different length (either order), point and signal */
+		if (pos == 4) { snprintf(B0->pd[0].aspects[1].id, 24, "normal"); B0->pd[0].aspects[1].nports = 1; return 1; }
+		if (pos == 5) { snprintf(B0->pd[0].aspects[1].id, 24, "normal"); B0->pd[0].aspects[0].nports = 1; return 1; }
+		if (pos == 6) { snprintf(B0->sd[0].aspects[1].id, 24, "stop"); B0->sd[0].aspects[1].nports = 2; B0->sd[0].aspects[1].ports[1] = (cm_portval_t) {2, 1}; return 1; }
+		if (pos == 7) { snprintf(B0->sd[0].aspects[1].id, 24, "stop"); B0->sd[0].aspects[0].nports = 2; B0->sd[0].aspects[0].ports[1] = (cm_portval_t) {2, 1}; return 1; }
+		return 0;
 	case F_DUP_ASPECT_VALUE: if (pos == 0) { B1->pb[0].aspects[1].value = B1->pb[0].aspects[0].value; return 1; } if (pos == 1) { B2->per[0].aspects[1].value = B2->per[0].aspects[0].value; return 1; }
 		if (pos == 2) { B2->sb[0].aspects[1].value = B2->sb[0].aspects[0].value; return 1; } return 0;
 	case F_INITIAL_UNDECLARED: if (pos == 0) { snprintf(B1->pb[0].initial, 24, "nosuch"); return 1; } if (pos == 1) { snprintf(B0->pd[0].initial, 24, "nosuch"); return 1; }
